@@ -158,22 +158,43 @@ def _scan_state(tree, cached_attrs, cached_funcs):
                     elif isinstance(n, ast.AugAssign) and isinstance(t, ast.Name):
                         base = (t.id, n)
                     if base:
-                        _classify(base, q, module_containers, local, declared_global, memo_alias, glob_hits, mut_hits, augname=isinstance(t, ast.Name))
+                        _classify(base, q, module_containers, local, declared_global, memo_alias, glob_hits, mut_hits, augname=isinstance(t, ast.Name), fn=fn)
                         base = None
             elif isinstance(n, ast.Call) and isinstance(n.func, ast.Attribute) and n.func.attr in MUTATORS:
                 v = n.func.value
                 if isinstance(v, ast.Name):
-                    _classify((v.id, n), q, module_containers, local, declared_global, memo_alias, glob_hits, mut_hits)
+                    _classify((v.id, n), q, module_containers, local, declared_global, memo_alias, glob_hits, mut_hits, fn=fn)
                 elif isinstance(v, ast.Attribute) and v.attr in cached_attrs:
                     mut_hits.append((q, v.attr, v.attr, n))
     return glob_hits, mut_hits
 
 
-def _classify(base, q, module_containers, local, declared_global, memo_alias, glob_hits, mut_hits, augname=False):
+PLAIN = ("str", "int", "bool", "float", "bytes")
+
+
+def _complete_plain_key(fn, node):
+    """`table[KEY] = ...` where KEY is exactly the function's parameter(s), all of plain immutable value types: a transparent memo"""
+    if not (isinstance(node, ast.Assign) and len(node.targets) == 1 and isinstance(node.targets[0], ast.Subscript)):
+        return False
+    key = node.targets[0].slice
+    params = [a for a in fn.args.posonlyargs + fn.args.args + fn.args.kwonlyargs if a.arg not in ("self", "cls")]
+    if not params or fn.args.vararg or fn.args.kwarg:
+        return False
+    for a in params:
+        ann = ast.unparse(a.annotation).strip("'\"") if a.annotation is not None else ""
+        if ann not in PLAIN:
+            return False
+    names = [key.id] if isinstance(key, ast.Name) else [e.id for e in key.elts if isinstance(e, ast.Name)] if isinstance(key, ast.Tuple) else []
+    return sorted(names) == sorted(a.arg for a in params)
+
+
+def _classify(base, q, module_containers, local, declared_global, memo_alias, glob_hits, mut_hits, augname=False, fn=None):
     name, node = base
     if name in memo_alias:
         mut_hits.append((q, name, memo_alias[name], node))
     elif name in module_containers and (name not in local or name in declared_global):
+        if fn is not None and _complete_plain_key(fn, node):
+            return   # keyed by the complete, plain-valued argument list: transparent
         glob_hits.append((q, name, node))
 
 
